@@ -7,7 +7,9 @@ In the model every Go operation that can panic is an explicit check yielding `Re
 and `buff[4:]` in `Vflow.Model.Sflow`; the `make` with a wire-derived size is bounded by the length
 validation (`decodeExtRouter`) and the 1500-octet cap (`decodeSampledHeader`).  The theorems are about
 the code after the `fix:` commits F5 and F7 (before them the model *did* return `panic` on the corpus
-witnesses `corpus/C01/sflow-F5-extrouter-len.txt`, `corpus/C01/sflow-F7-vlan-short.txt`).
+witnesses `corpus/C01/sflow-F5-extrouter-len.txt`, `corpus/C01/sflow-F7-vlan-short.txt`) and F19
+(a dissector error and an extended-router record of another length are skipped, not fatal: the decoder
+goes on over more octet strings than before, and is panic-free on all of them).
 -/
 namespace Vflow.C01Sflow
 open Vflow Vflow.Sflow Vflow.Packet
@@ -50,8 +52,18 @@ example : dissect [0x4f,0,0,24, 0,1,0,0, 64,17,0,0, 192,0,2,1, 192,0,2,2, 0,53,0
     dissect [0x40,0,0,28, 0,1,0,0, 64,17,0,0, 192,0,2,1, 192,0,2,2, 0,53,0,54,0,8,0,0] 11 =
       .ok ⟨{}, .v4 ⟨4, 0, 28, 1, 0, 0, 64, 17, 0, [192,0,2,1], [192,0,2,2]⟩, .udp 53 54⟩ := by decide
 
-/-- non-vacuity (F5 witness): an extended-router record of declared length 8 is an error, not a panic -/
-example : decodeExtRouter 8 [0,0,0,1, 192,0,2,9, 0,0,0,24, 0,0,0,16] = .err .rtrLen := by decide
+/-- non-vacuity (F5 witness): an extended-router record of declared length 8 is an error of
+`ExtRouterData.unmarshal`, not a panic; since the F19d repair the record loop does not even call it but
+skips the record by its declared length — 8 octets, or 4 294 967 295 (the position runs past the end:
+what is left is empty, the next read is an EOF error) -/
+example : decodeExtRouter 8 [0,0,0,1, 192,0,2,9, 0,0,0,24, 0,0,0,16] = .err .rtrLen ∧
+    flowRecord [0,0,3,234, 0,0,0,8, 0,0,0,1, 192,0,2,9, 0,0,0,24, 0,0,0,16] = .ok (none, [0,0,0,24, 0,0,0,16]) ∧
+    flowRecord [0,0,3,234, 255,255,255,255, 0,0,0,1, 192,0,2,9, 0,0,0,24, 0,0,0,16] = .ok (none, []) := by decide
+
+/-- non-vacuity (F19a): a raw-header record whose sampled header is the F7 witness (802.1Q ethertype in 14
+octets) is consumed — 8 + 16 + 14 + 2 octets — and yields no entry; what follows is left -/
+example : flowRecord ([0,0,0,1, 0,0,0,32, 0,0,0,1, 0,0,0,64, 0,0,0,4, 0,0,0,14,
+    2,0,0,0,0,1, 2,0,0,0,0,2, 0x81,0, 0,0] ++ [9, 9]) = .ok (none, [9, 9]) := by decide
 
 /-- non-vacuity: a well-formed extended-router record decodes -/
 example : decodeExtRouter 16 [0,0,0,1, 192,0,2,9, 0,0,0,24, 0,0,0,16] = .ok (⟨[192,0,2,9], 24, 16⟩, []) := by decide
